@@ -1023,6 +1023,8 @@ class Engine(Exec):
                 st.env[n] = fresh(n, 'bool')
             elif isinstance(v, Arr):
                 pass
+            elif isinstance(v, V.Opaque):
+                pass
             elif isinstance(v, SpecArr):
                 V._arr_counter[0] += 1
                 st.env[n] = SpecArr(z3.Const('%s!g%d' % (n, V._arr_counter[0]), V.arr_sort(v.rank, v.elem)), v.shape, v.elem)
